@@ -5,5 +5,5 @@ CONSTANTS
   NCfg = 6
   LocalInLoopCheck = TRUE
   Gen = TRUE
-INVARIANTS StoredOnlyIf StoredConforms SentNoLoop PipelineExact
+INVARIANTS StoredOnlyIf StoredConforms SentNoLoop RegisteredConform PipelineExact
 CHECK_DEADLOCK FALSE
